@@ -23,7 +23,7 @@ def nonneg(xs):
 
 def act_at(t, I, i):
     """tier i of (TieredTime(*t) + I): add below the cut-off, overwrite from it on"""
-    return If(i < I.cutoff, t[i] + I.tiers[i], I.tiers[i])
+    return If(i < I.cutoff, _at(t, i) + _at(I.tiers, i), _at(I.tiers, i))
 
 
 class Act:
@@ -42,11 +42,19 @@ class Act:
         return act_at(self.t, self.I, i)
 
 
+def _at(seq, i):
+    """seq[i]; evaluated natively the spec's If() computes both branches, so an index that only the untaken branch uses may
+    lie outside the sequence: any value will do there"""
+    if isinstance(i, int) and not isinstance(i, bool) and hasattr(seq, "__len__") and not (0 <= i < len(seq)):
+        return 0
+    return seq[i]
+
+
 def comp_at(a, b, i):
     """tier i of (a + b) for wf a, b with len(a) == b.pre_length: below b's cut-off the
     tiers add (a's own tier counts whether a added or overwrote there), from b's cut-off
     on b overwrites"""
-    return If(i < b.cutoff, a.tiers[i] + b.tiers[i], b.tiers[i])
+    return If(i < b.cutoff, _at(a.tiers, i) + _at(b.tiers, i), _at(b.tiers, i))
 
 
 class Comp:
